@@ -63,9 +63,60 @@ pub fn wrap(p: Placement, t: Ty) -> Ty {
     }
 }
 
-pub fn versions_of(spec: &HistorySpec) -> Vec<Record> {
-    build_history(spec, &dynamic_menu(false))
+/// field types of the run-time histories: the plain menu plus nested records that have histories of their own (the
+/// same definition on both sides). Three of them carry removed-field names in their headers; the names are chosen to
+/// collide with declared fields of the other ones, so that a misresolved name has a visible consequence (F17).
+pub fn evo_menu() -> Vec<Ty> {
+    thread_local! {
+        static MENU: Vec<Ty> = {
+            let a = |t: Ty| Arc::new(t);
+            let f = |n: &str, t: Ty| vmodel::Field::new(n, t);
+            let nest_a = Ty::Adt(struct_decl("NestA", &Record { fields: vec![f("k", Ty::U8), f("y", Ty::Option(a(Ty::U16)))], steps: vec![vmodel::Step::Removed { name: "x".into() }] }));
+            let nest_b = Ty::Adt(struct_decl("NestB", &Record { fields: vec![f("s", Ty::Str)], steps: vec![vmodel::Step::Removed { name: "y".into() }] }));
+            let nest_c = Ty::Adt(struct_decl(
+                "NestC",
+                &Record { fields: vec![f("x", Ty::Option(a(Ty::Bool))), f("n", Ty::U32)], steps: vec![vmodel::Step::Added { name: "n".into(), default: Val::Int(5) }, vmodel::Step::Removed { name: "k".into() }] },
+            ));
+            let nest_plain = Ty::Adt(struct_decl(
+                "NestP",
+                &Record { fields: vec![f("a", Ty::U8), f("b", Ty::Option(a(Ty::Str))), f("c", Ty::I32)], steps: vec![vmodel::Step::MadeOptional { name: "b".into() }, vmodel::Step::Added { name: "c".into(), default: Val::Int(-1) }] },
+            ));
+            let mut m = dynamic_menu(false);
+            m.extend([nest_a.clone(), Ty::Option(a(nest_a.clone())), Ty::Vec(a(nest_a)), nest_b.clone(), Ty::Option(a(nest_b)), nest_c.clone(), Ty::Option(a(nest_c)), nest_plain.clone(), Ty::Vec(a(nest_plain))]);
+            m
+        };
+    }
+    MENU.with(|m| m.clone())
 }
+
+pub fn versions_of(spec: &HistorySpec) -> Vec<Record> {
+    build_history(spec, &evo_menu())
+}
+
+/// Finding F17 (known_findings.json): removed-field names in record headers are deduplicated strings, and a reader that
+/// skips the bytes holding the first occurrence of one (a chunk its definition does not know, a removed field's
+/// bytes) numbers the following strings differently from the writer. Some(why) when exactly that explains the
+/// outcome `got`: a back-reference the reader resolves means another string (or none) to it than to the writer, and
+/// the outcome is the one a faithful implementation of the format gives (the reference decoder's). Any other
+/// deviation stays a violation.
+pub fn f17_explains(tw: &Ty, tr: &Ty, bytes: &[u8], got: &Result<Val, vmodel::ErrInfo>) -> Option<String> {
+    if !vmodel::refcodec::has_dedup_sources(tw) {
+        return None;
+    }
+    let why = vmodel::refcodec::shadowed_string_ids(tw, bytes, tr)?;
+    let same = match (vmodel::refcodec::ref_decode(tr, bytes), got) {
+        (Ok((v, _)), Ok(g)) => canon(tr, &v) == canon(tr, g),
+        (Err(_), Err(_)) => true,
+        _ => false,
+    };
+    if same {
+        Some(why)
+    } else {
+        None
+    }
+}
+
+const F17_EXCLUDED: &str = "F17: the reader skipped the first occurrence of a removed-field name and resolves a later back-reference differently from the writer";
 
 pub fn decl_name(spec: &HistorySpec, i: usize) -> String {
     format!("DynH{:08x}v{i}", hash_json(spec) as u32)
@@ -94,29 +145,9 @@ fn case_decl_name(c: &EvoCase, i: usize) -> String {
 pub fn compiled_evo_strategy(h: usize) -> BoxedStrategy<EvoCase> {
     let decls = crate::props::derived::batch().histories[h].clone();
     let n = decls.len();
-    // DeduplicatedString anywhere inside (also in nested declarations) rules out cross-version reading
-    // ... and so do nested declarations whose evolution header carries removed-field names: those names are
-    // deduplicated strings too, so a reader that skips the chunk holding their first occurrence cannot resolve a later
-    // back-reference (the same format limitation, reached without any user-level DeduplicatedString)
-    let nested_header_names = |d: &Arc<vmodel::Decl>| {
-        let fields: Vec<&vmodel::Field> = match &d.body {
-            vmodel::DeclBody::Struct(r) => r.fields.iter().collect(),
-            _ => vec![],
-        };
-        fields.iter().any(|f| {
-            f.ty.any(&|t| match t {
-                Ty::Adt(n) => {
-                    let recs: Vec<&Record> = match &n.body {
-                        vmodel::DeclBody::Struct(r) => vec![r],
-                        vmodel::DeclBody::Enum { variants, .. } => variants.iter().map(|v| &v.record).collect(),
-                    };
-                    recs.iter().any(|r| r.steps.iter().any(|s| matches!(s, vmodel::Step::Removed { .. } | vmodel::Step::MadeTransient { .. })))
-                }
-                _ => false,
-            })
-        })
-    };
-    let dedup = crate::props::derived::batch().dedup_histories[h] || decls.iter().any(|d| Ty::Adt(d.clone()).any(&|t| *t == Ty::Dedup)) || decls.iter().any(nested_header_names);
+    // a user-level DeduplicatedString anywhere inside (also in nested declarations) rules out cross-version reading
+    // (documented in lib.rs); removed-field names in nested headers do not: see F17
+    let dedup = crate::props::derived::batch().dedup_histories[h] || decls.iter().any(|d| Ty::Adt(d.clone()).any(&|t| *t == Ty::Dedup));
     (0..n, 0..n, prop::sample::select(vec![Placement::Top, Placement::Top, Placement::Between, Placement::Between, Placement::InVec, Placement::InOption]))
         .prop_flat_map(move |(w, r, placement)| {
             // cross-version reading with DeduplicatedString fields is documented as unsupported
@@ -213,17 +244,40 @@ pub fn check_c03(c: &EvoCase, acc: &mut Acc, record: bool) -> Verdict {
         }
     }
     let (got, rest) = vcat::decode_with_rest(&tr, &bytes);
-    match (&expected, &got) {
+    let verdict = compare_c03(c, &versions, &tr, &bytes, &expected, &got, &rest);
+    if let Verdict::Fail(_) = &verdict {
+        if c.w != c.r && f17_explains(&tw, &tr, &bytes, &got).is_some() {
+            if record {
+                acc.exclude(F17_EXCLUDED);
+                *acc.known.entry("F17".into()).or_insert(0) += 1;
+                let how = match (&expected, &got) {
+                    (_, Err(e)) => format!("F17 outcome: error {}", e.kind),
+                    (Ok(_), Ok(_)) => "F17 outcome: a silently different value".to_string(),
+                    (Err(_), Ok(_)) => "F17 outcome: a value where the documented outcome is an error".to_string(),
+                };
+                acc.bump(&how, 1);
+                if acc.wants_sample(&how) {
+                    acc.sample(&how, json!({"steps": format!("{:?}", versions.last().unwrap().steps), "writer_version": c.w, "reader_version": c.r, "placement": format!("{:?}", c.placement), "value": c.val.brief(), "bytes_hex": hex(&bytes[..bytes.len().min(96)]), "documented": format!("{:?}", expected.as_ref().map(|v| v.brief())), "got": format!("{:?}", got.as_ref().map(|v| v.brief()))}));
+                }
+            }
+            return Verdict::Skip;
+        }
+    }
+    verdict
+}
+
+fn compare_c03(c: &EvoCase, versions: &[Record], tr: &Ty, bytes: &[u8], expected: &Result<Val, ReadErr>, got: &Result<Val, vmodel::ErrInfo>, rest: &[u8]) -> Verdict {
+    match (expected, got) {
         (Ok(e), Ok(g)) => {
             // nested declarations inside the fields have transient fields of their own
-            let e = &vmodel::with_transient_defaults(&tr, e);
-            if canon(&tr, g) != canon(&tr, e) {
-                return Verdict::Fail(format!("version {} read data of version {} as {} — documented outcome is {} (steps {:?}, bytes {})", c.r, c.w, g.brief(), e.brief(), versions.last().unwrap().steps, hex(&bytes)));
+            let e = &vmodel::with_transient_defaults(tr, e);
+            if canon(tr, g) != canon(tr, e) {
+                return Verdict::Fail(format!("version {} read data of version {} as {} — documented outcome is {} (steps {:?}, bytes {})", c.r, c.w, g.brief(), e.brief(), versions.last().unwrap().steps, hex(bytes)));
             }
             // stored version 0 read by a definition that dropped trailing fields: at top level the dropped field's
             // bytes simply stay unread (DESIGN section 9), everywhere else the buffer must be consumed exactly
-            if !rest.is_empty() && !unframed_removal(&versions, c.w, c.r) {
-                return Verdict::Fail(format!("version {} read data of version {} correctly but left {} bytes unread ({}): data that follows the record would be disturbed (steps {:?})", c.r, c.w, rest.len(), hex(&rest), versions.last().unwrap().steps));
+            if !rest.is_empty() && !unframed_removal(versions, c.w, c.r) {
+                return Verdict::Fail(format!("version {} read data of version {} correctly but left {} bytes unread ({}): data that follows the record would be disturbed (steps {:?})", c.r, c.w, rest.len(), hex(rest), versions.last().unwrap().steps));
             }
             Verdict::Pass
         }
@@ -238,7 +292,7 @@ pub fn check_c03(c: &EvoCase, acc: &mut Acc, record: bool) -> Verdict {
                 Verdict::Fail(format!("version {} reading version {}: expected {kind}({field}), got {g:?} (steps {:?})", c.r, c.w, versions.last().unwrap().steps))
             }
         }
-        (Ok(e), Err(g)) => Verdict::Fail(format!("version {} failed to read data of version {}: {g:?}; documented outcome is {} (steps {:?}, value {}, bytes {})", c.r, c.w, e.brief(), versions.last().unwrap().steps, c.val.brief(), hex(&bytes))),
+        (Ok(e), Err(g)) => Verdict::Fail(format!("version {} failed to read data of version {}: {g:?}; documented outcome is {} (steps {:?}, value {}, bytes {})", c.r, c.w, e.brief(), versions.last().unwrap().steps, c.val.brief(), hex(bytes))),
         (Err(e), Ok(g)) => Verdict::Fail(format!("version {} read data of version {} as {} — documented outcome is the error {e:?} (steps {:?})", c.r, c.w, g.brief(), versions.last().unwrap().steps)),
     }
 }
@@ -277,13 +331,44 @@ pub fn run_c03(cx: &Cx) -> PropResult {
     let mut r = PropResult::new(
         acc,
         "exploration",
-        "E3 cases = (legal evolution history H built by construction from a generated spec: 0-6 initial fields incl. transient ones, up to 8 (every 4th shard: 40) steps of FieldAdded at a random declaration position / FieldMadeOptional / FieldRemoved / FieldMadeTransient; writer version w; reader version r; value of version w; placement: top level, between two sibling fields of a tuple, element of a Vec, inside Option, body of a struct variant of an enum). Both versions are driven through AdtSerializer / AdtDeserializer exactly as the derive expansion does (E3; validated against the real expansion by C02). Oracle: expected(H, w, r, v) computed on the logical level from the documentation (default / wrap / unwrap / absent-if-optional / the two specific errors with the field name, first error in declaration order), siblings intact and the whole buffer consumed. Non-trivial = w != r; classes = reader branch x (w<r, w=r, w>r) x placement. E2 cases: the same check on all versions of the 36 histories of the compiled batch (types H{h}V{i} generated by vgen and compiled with the real derive macro), all (w, r) pairs; histories whose types contain DeduplicatedString — or nested declarations with removed-field names in their headers, which are deduplicated strings as well — only with w = r. Tuple variants: histories whose fields are only appended (positional names stay stable) are compiled as enums T{t}V{v} = { Nil, Rec(..) } with the history on the tuple variant, and all (w, r) pairs are read through the macro's positional-field code.",
+        "E3 cases = (legal evolution history H built by construction from a generated spec: 0-6 initial fields incl. transient ones, up to 8 (every 4th shard: 40) steps of FieldAdded at a random declaration position / FieldMadeOptional / FieldRemoved / FieldMadeTransient; writer version w; reader version r; value of version w; placement: top level, between two sibling fields of a tuple, element of a Vec, inside Option, body of a struct variant of an enum). Both versions are driven through AdtSerializer / AdtDeserializer exactly as the derive expansion does (E3; validated against the real expansion by C02). Oracle: expected(H, w, r, v) computed on the logical level from the documentation (default / wrap / unwrap / absent-if-optional / the two specific errors with the field name, first error in declaration order), siblings intact and the whole buffer consumed. Non-trivial = w != r; classes = reader branch x (w<r, w=r, w>r) x placement. E2 cases: the same check on all versions of the 36 histories of the compiled batch (types H{h}V{i} generated by vgen and compiled with the real derive macro), all (w, r) pairs; histories whose types contain a user-level DeduplicatedString only with w = r. Field types include nested records with histories of their own (same definition on both sides), three of them with removed-field names in their headers. Tuple variants: histories whose fields are only appended (positional names stay stable) are compiled as enums T{t}V{v} = { Nil, Rec(..) } with the history on the tuple variant, and all (w, r) pairs are read through the macro's positional-field code.",
     );
     r.assumptions = vec![
         "DESIGN section 9: embedded placement with stored version 0 and a removed chunk-0 field is outside the quantifier (counted under excluded_by_construction)".into(),
-        "field types come from a fixed menu without DeduplicatedString (cross-version dedup is documented as unsupported)".into(),
+        "field types come from a fixed menu without user-level DeduplicatedString (cross-version dedup is documented as unsupported in lib.rs); nested records with removed-field names in their headers ARE in the menu: the cases they break are finding F17, recognised by an exact criterion (a back-reference the reader resolves differently from the writer, outcome equal to the reference decoder's) and counted under excluded_by_construction".into(),
     ];
+    known_f17(&mut r);
     r
+}
+
+/// F17 re-exhibited on a fixed history: V1 { a: NestA, b: NestA } written, V2 (a removed) reads. NestA's header carries
+/// the removed-field name "x": first occurrence inside a's bytes, which V2 never visits, back-reference inside b.
+fn known_f17(r: &mut PropResult) {
+    let a = |t: Ty| Arc::new(t);
+    let nest_a = Ty::Adt(struct_decl("NestA", &Record { fields: vec![vmodel::Field::new("k", Ty::U8), vmodel::Field::new("y", Ty::Option(a(Ty::U16)))], steps: vec![vmodel::Step::Removed { name: "x".into() }] }));
+    let dflt = Val::Rec(vec![Val::Int(0), Val::None]);
+    let v1 = Record { fields: vec![vmodel::Field::new("a", nest_a.clone()), vmodel::Field::new("b", nest_a.clone())], steps: vec![vmodel::Step::Added { name: "b".into(), default: dflt.clone() }] };
+    let v2 = Record { fields: vec![vmodel::Field::new("b", nest_a)], steps: vec![vmodel::Step::Added { name: "b".into(), default: dflt }, vmodel::Step::Removed { name: "a".into() }] };
+    let (tw, tr) = (Ty::Adt(struct_decl("F17V1", &v1)), Ty::Adt(struct_decl("F17V2", &v2)));
+    let val = Val::Rec(vec![Val::Rec(vec![Val::Int(1), Val::None]), Val::Rec(vec![Val::Int(2), Val::some(Val::Int(7))])]);
+    let expected = Val::Rec(vec![Val::Rec(vec![Val::Int(2), Val::some(Val::Int(7))])]);
+    let bytes = match vcat::encode(&tw, &val).0 {
+        Ok(b) => b,
+        Err(_) => return,
+    };
+    let got = vcat::decode(&tr, &bytes);
+    let as_documented = matches!(&got, Ok(g) if canon(&tr, g) == canon(&tr, &expected));
+    if !as_documented && f17_explains(&tw, &tr, &bytes, &got).is_some() {
+        r.lines.push(format!(
+            "KNOWN-FINDING: property=C03 F17 V1 {{ a: NestA, b: NestA }} (b added) written as {} and read by V2 (a removed) gives {} instead of {{ b: {{ k: 2, y: Some(7) }} }}: NestA's header names its removed field \"x\" as a deduplicated string whose first occurrence lies in the bytes of a, which V2 never visits, so the back-reference inside b has no (or another) meaning for the reader",
+            hex(&bytes),
+            match &got {
+                Ok(g) => g.brief(),
+                Err(e) => e.detail.clone(),
+            }
+        ));
+        *r.acc.known.entry("F17".into()).or_insert(0) += 1;
+    }
 }
 
 pub fn replay_c03(case: &Value) -> Verdict {
@@ -310,6 +395,9 @@ pub fn materialize_evo(c: &EvoCase) -> Option<(Ty, Ty, Vec<u8>, Result<Val, Read
     let mut classes = Vec::new();
     let expected = expected_wrapped(c.placement, &versions, c.w, c.r, &c.val, &mut classes).map(|e| vmodel::with_transient_defaults(&tr, &e));
     let bytes = vcat::encode(&tw, &c.val).0.ok()?;
+    if c.w != c.r && vmodel::refcodec::has_dedup_sources(&tw) && vmodel::refcodec::shadowed_string_ids(&tw, &bytes, &tr).is_some() {
+        return None; // F17, reported by C03
+    }
     Some((tw, tr, bytes, expected, versions[c.w].steps.len()))
 }
 
